@@ -47,6 +47,7 @@ class ExecutionContext:
     on_metric: MetricHook | None
     on_log: LogHook | None
     operation: str | None
+    settled: bool = False
 
     @classmethod
     def create(
@@ -110,6 +111,7 @@ def check_breaker(ctx: ExecutionContext) -> None:
 
 def record_success(ctx: ExecutionContext) -> None:
     """Record success with circuit breaker and emit event if state changed."""
+    ctx.settled = True
     if ctx.breaker is None:
         return
 
@@ -119,17 +121,31 @@ def record_success(ctx: ExecutionContext) -> None:
 
 def record_cancel(ctx: ExecutionContext) -> None:
     """Record cancellation with circuit breaker (no event emitted)."""
+    ctx.settled = True
     if ctx.breaker is not None:
         ctx.breaker.record_cancel()
 
 
 def record_failure(ctx: ExecutionContext, klass: ErrorClass) -> None:
     """Record failure with circuit breaker and emit event if state changed."""
+    ctx.settled = True
     if ctx.breaker is None:
         return
 
     event = ctx.breaker.record_failure(klass)
     ctx.emit_breaker_event(event, ctx.breaker.state, klass)
+
+
+def settle(ctx: ExecutionContext) -> None:
+    """
+    Release the breaker if an admitted call ended without reporting its outcome.
+
+    Covers exits that bypass the normal handlers (GeneratorExit, CancelledError in
+    sync code, nested CircuitOpenError, errors raised by hooks or classifiers) so a
+    half-open probe slot is never leaked.
+    """
+    if not ctx.settled:
+        record_cancel(ctx)
 
 
 def classify_for_breaker(exc: BaseException, retry: Any) -> ErrorClass:
